@@ -763,6 +763,25 @@ theorem model_assumptions_tie_bodies :
     Generated.C03.aescbcaeadHmacTagReturn = "return h.Sum(nil)[:l]" := by
   decide
 
+/-- What each symmetric helper does after its (interpreted) guard prefix — the part the model writes by
+hand: `Seal` with `nil` destination and the split at `len(out) − Overhead()`, the join of
+ciphertext‖tag in a FRESH slice and `Open(nil, …)`, CBC over a fresh buffer with PKCS#7 for the
+non-NOPAD names only, `aeskw.Wrap/Unwrap` — as rendered from the source, statement by statement. -/
+theorem model_assumptions_tie_helpers :
+    Generated.C03.body_encryptSymmetricAESCBC = ["switch algorithm { case Algorithm_A128CBC_NOPAD, Algorithm_A192CBC_NOPAD, Algorithm_A256CBC_NOPAD: default: plaintext, err = padding.PadPKCS7(plaintext, aes.BlockSize) if err != nil { return nil, err } }", "ciphertext = make([]byte, len(plaintext))", "cipher.NewCBCEncrypter(block, iv). CryptBlocks(ciphertext, plaintext)", "return ciphertext, nil"] ∧
+    Generated.C03.body_decryptSymmetricAESCBC = ["plaintext = make([]byte, len(ciphertext))", "cipher.NewCBCDecrypter(block, iv). CryptBlocks(plaintext, ciphertext)", "switch algorithm { case Algorithm_A128CBC_NOPAD, Algorithm_A192CBC_NOPAD, Algorithm_A256CBC_NOPAD: default: plaintext, err = padding.UnpadPKCS7(plaintext, aes.BlockSize) if err != nil { return nil, err } }", "return plaintext, nil"] ∧
+    Generated.C03.body_encryptSymmetricAESGCM = ["return encryptSymmetricAEAD(aead, plaintext, nonce, associatedData)"] ∧
+    Generated.C03.body_decryptSymmetricAESGCM = ["return decryptSymmetricAEAD(aead, ciphertext, nonce, tag, associatedData)"] ∧
+    Generated.C03.body_encryptSymmetricAESCBCHMAC = ["return encryptSymmetricAEAD(aead, plaintext, nonce, associatedData)"] ∧
+    Generated.C03.body_decryptSymmetricAESCBCHMAC = ["return decryptSymmetricAEAD(aead, ciphertext, nonce, tag, associatedData)"] ∧
+    Generated.C03.body_encryptSymmetricAEAD = ["out := aead.Seal(nil, nonce, plaintext, associatedData)", "tagSize := aead.Overhead()", "return out[0 : len(out)-tagSize], out[len(out)-tagSize:], nil"] ∧
+    Generated.C03.body_decryptSymmetricAEAD = ["sealed := make([]byte, 0, len(ciphertext)+len(tag))", "sealed = append(sealed, ciphertext...)", "sealed = append(sealed, tag...)", "return aead.Open(nil, nonce, sealed, associatedData)"] ∧
+    Generated.C03.body_encryptSymmetricAESKW = ["return aeskw.Wrap(block, plaintext)"] ∧
+    Generated.C03.body_decryptSymmetricAESKW = ["return aeskw.Unwrap(block, ciphertext)"] ∧
+    Generated.C03.body_encryptSymmetricChaCha20Poly1305 = ["out := aead.Seal(nil, nonce, plaintext, associatedData)", "return out[0 : len(out)-chacha20poly1305.Overhead], out[len(out)-chacha20poly1305.Overhead:], nil"] ∧
+    Generated.C03.body_decryptSymmetricChaCha20Poly1305 = ["sealed := make([]byte, 0, len(ciphertext)+len(tag))", "sealed = append(sealed, ciphertext...)", "sealed = append(sealed, tag...)", "return aead.Open(nil, nonce, sealed, associatedData)"] := by
+  decide
+
 /-! ## 7. signatures -/
 
 /-- The kinds of key the harness exercises. -/
